@@ -25,6 +25,7 @@ var preemptCalls = map[string]bool{
 	"(*github.com/janelia-flyem/dvid/zzverif/vstore.Store).Get":    true,
 	"(*github.com/janelia-flyem/dvid/zzverif/vstore.Store).Delete": true,
 	"(*github.com/janelia-flyem/dvid/zzverif/vstore.Store).RawPut": true,
+	"(*github.com/janelia-flyem/dvid/zzverif/vstore.Batch).Commit": true,
 }
 
 type threadKill struct{}
